@@ -299,5 +299,6 @@ def replay(body):
     if r.get('op') == 'fill_livetime':
         out('implementation now gives', impl_fill(r['case']), 'model gave', r['model'])
         return 1
-    out(body['what'])
-    return 1
+    import sys
+    import common
+    return common.replay_rerun(sys.modules[__name__], body)
